@@ -13,6 +13,7 @@ from . import c01_gen as cgen
 from . import c01_graph as cg
 from . import c01_outputs as cout
 from . import c01_overrides as cov
+from . import c01_replace as crep          # also extends e3.apply_edit with op 'replace_keep'
 from . import c01_oracle as co
 from . import common, e2, e3, e3_gen
 
@@ -22,7 +23,7 @@ MODEL_TARGETS = ["model/NoStale.vo", "model/Engine.vo", "model/EnginePlan.vo"]
 RULE = ("E3 differential oracle: seeded generator of projects (static files, static trees, static patterns, "
         "globs with one step per match, chains / diamonds, multiple and volatile outputs, env vars, optional "
         "steps, resources, script steps that amend inputs / outputs / env, sub-plans with hold/release) and "
-        "histories of 1-6 phases of edits (change / add / delete a source; drop, re-add, redefine or add "
+        "histories of 1-6 phases of edits (change / add / delete a source; REPLACE a source, step script or plan script by another file of the same size, mode and mtime (rename over: new inode); drop, re-add, redefine or add "
         "steps, declarations and sub-plans; add, change, remove one or remove ALL environment overrides (leading VAR=value words / env_overrides argument) of an otherwise identical step whose command reads the variable; change or unset an env var; change ALL tracked variables or all "
         "source inputs (same size) of one step in one phase and put a SUBSET back in a later phase -- steps "
         "track up to 3 declared and / or amended variables; scripts edited so that they amend another set of "
@@ -307,6 +308,9 @@ def guard_cases() -> dict:
     # environment overrides of a step removed / changed / added by a plan edit (every layout and
     # form, c01_overrides.guard_cases): F10 where nothing else marks the recycled step
     out.update(cov.guard_cases())
+    # a source, the script of a script step, a plan script REPLACED by another file of the same
+    # size, mode and mtime (new inode): restart and watch
+    out.update(crep.guard_cases())
     # the user touches PRODUCTS between two builds: an intermediate / final output is modified,
     # deleted, written again with the same bytes, or merely touched (restart and watch flavour);
     # a build from scratch does not care what the output looked like before
@@ -431,6 +435,34 @@ def _run_override(i_seed):
     """Worker: one history of the family 'environment overrides of a step edited by the plan'."""
     i, seed = i_seed
     case, desc = _override_case(seed, i)
+    out = {"i": i, "desc": desc, "sigs": {}, "error": None}
+    try:
+        try:
+            r = co.run_case(case)
+        except (e3.E3Error, OSError):
+            if case["flavour"] != "watch":
+                raise
+            case = dict(case, flavour="restart")
+            r = co.run_case(case)
+    except (e3.E3Error, OSError) as exc:
+        out["error"] = f"{type(exc).__name__}: {str(exc)[:300]}"
+        return out
+    sigs = co.signatures(r["inc"], r["scr"], r["diffs"], case, r["results"][:-1])
+    out["sigs"] = {k: [[d["kind"], d["key"], d["a"], d["b"]] for d in v[:6]] for k, v in sigs.items()}
+    out["rc"] = [x.returncode for x in r["results"]] + [r["scr"].returncode]
+    out["executed"] = [len(x.commands) for x in r["results"]]
+    out["size"] = co.case_size(case)
+    return out
+
+
+def _replace_case(seed, i):
+    return crep.gen_replace_case(random.Random(f"c01-replace-{seed}-{i}"))
+
+
+def _run_replace(i_seed):
+    """Worker: one history of the family 'files replaced by same-size / mode / mtime files'."""
+    i, seed = i_seed
+    case, desc = _replace_case(seed, i)
     out = {"i": i, "desc": desc, "sigs": {}, "error": None}
     try:
         try:
@@ -676,6 +708,37 @@ def oracle(ctx, n_override=None):
         case, desc = _override_case(ctx.seed, i)
         reported.add(sig)
         _report(ctx, sig, case, diffs, f"override case {i} ({json.dumps(desc, sort_keys=True)}), "
+                f"{len(lst)} case(s) with this signature")
+    # (2f) generated histories 'a source / step script / plan script is replaced by another file of
+    #      the same size, mode and mtime (new inode)', restart and watch
+    nr = ctx.scale(16, 300)
+    rres = e3.pool_map(_run_replace, [(i, ctx.seed) for i in range(nr)], nproc=ctx.scale(10, 12))
+    rby: dict = {}
+    for res in rres:
+        ctx.count("replace_family")
+        if res["error"]:
+            ctx.add_failure("oracle", "harness", "C01:harness-error:" + res["error"].split(":")[0],
+                            f"E3 could not run replace case {res['i']}: {res['error']}",
+                            witness={"i": res["i"], "desc": res["desc"]})
+            continue
+        for k in res["desc"]["kinds"]:
+            ctx.count("replace_edit:" + k)
+        ctx.count("replace_flavour:" + res["desc"]["flavour"])
+        # non-trivial: some same-stat replacement happened and a later build re-ran something
+        ctx.case(("replace", res["i"], json.dumps(res["desc"], sort_keys=True)),
+                 nontrivial=any(k in ("source", "step-script", "plan-script") for k in res["desc"]["kinds"])
+                 and sum(res["executed"][1:]) > 0)
+        for sig, diffs in res["sigs"].items():
+            ctx.count("sig:" + sig)
+            rby.setdefault(sig, []).append((res["size"], res["i"], diffs))
+    for sig, lst in sorted(rby.items()):
+        if sig in reported:
+            continue
+        lst.sort()
+        size, i, diffs = lst[0]
+        case, desc = _replace_case(ctx.seed, i)
+        reported.add(sig)
+        _report(ctx, sig, case, diffs, f"replace case {i} ({json.dumps(desc, sort_keys=True)}), "
                 f"{len(lst)} case(s) with this signature")
     # (3) generated histories
     n = n_override or ctx.scale(240, 4000)
